@@ -75,6 +75,12 @@ def gen_geometry(rs, n1, n2):
         m2 = m1[rs.randint(n1, size=n2)] + rs.normal(size=(n2, 3)) * scale * rs.uniform(0.02, 0.4)
     else:
         m2 = rs.uniform(-1, 1, size=3) * scale + rs.normal(size=(n2, 3)) * scale * 0.05
+    if n2 >= 2 and rs.randint(40) == 0:
+        # two mobile atoms at (numerically) the same distance from fixed atom 0: mirror images up to 1e-13
+        geo = "neartie"
+        d = rs.normal(size=3) * 0.01 * scale
+        m2[0] = m1[0] + d
+        m2[1] = m1[0] - d * (1 + rs.choice([0.0, 1e-13, -1e-13, 1e-11]))
     return geo, scale, m1, m2
 
 
@@ -263,8 +269,69 @@ def oracle_case(case, rs=None):
     return bad
 
 
+def drop(case, kind, idx):
+    """the case without restraint idx / fixed atom idx / mobile atom idx (restraints re-indexed)"""
+    c = dict(case)
+    restr = [tuple(p) for p in case["restr"]]
+    if kind == "restr":
+        c["restr"] = restr[:idx] + restr[idx + 1:]
+    elif kind == "m1":
+        if len(case["m1"]) <= 1:
+            return None
+        c["m1"] = case["m1"][:idx] + case["m1"][idx + 1:]
+        c["restr"] = [(i - (i > idx), j) for i, j in restr if i != idx]
+    else:
+        if len(case["m2e"]) <= 1:
+            return None
+        c["m2e"] = case["m2e"][:idx] + case["m2e"][idx + 1:]
+        c["m2c"] = case["m2c"][:idx] + case["m2c"][idx + 1:]
+        c["restr"] = [(i, j - (j > idx)) for i, j in restr if j != idx]
+    return c
+
+
+def fails(case):
+    return bool(oracle_case(case, np.random.RandomState(12345)))
+
+
+def shrink(case, budget=600):
+    """greedy delta-debugging on restraints / fixed atoms / mobile atoms, keeping the oracle failing"""
+    if not fails(case):
+        return case
+    changed = True
+    while changed and budget > 0:
+        changed = False
+        for kind, key in (("restr", "restr"), ("m1", "m1"), ("m2", "m2e")):
+            idx = len(case[key]) - 1
+            while idx >= 0 and budget > 0:
+                c2 = drop(case, kind, idx)
+                budget -= 1
+                if c2 is not None and fails(c2):
+                    case = c2
+                    changed = True
+                idx = min(idx, len(case[key])) - 1
+    return case
+
+
+MAX_REPORTS = 5
+
+
+def report(ctx, case, bad):
+    """at most MAX_REPORTS replay files per run; the first one is shrunk"""
+    n = getattr(ctx, "_c08_reports", 0)
+    ctx._c08_reports = n + 1
+    if n >= MAX_REPORTS:
+        return
+    if n == 0:
+        small = shrink(case)
+        bad2 = oracle_case(small, np.random.RandomState(12345))
+        if bad2:
+            case, bad = dict(small, shrunk_from=[len(case["m1"]), len(case["m2e"]), len(case["restr"])]), bad2
+    ctx.violation("chi2: " + "; ".join(bad), slim(case), key="chi2")
+
+
 def slim(case):
-    return {k: case[k] for k in ("stream", "geo", "rkind", "m1", "m2c", "restr", "m2e", "none_arg") if k in case}
+    return {k: case[k] for k in ("stream", "geo", "rkind", "m1", "m2c", "restr", "m2e", "none_arg", "shrunk_from")
+            if k in case}
 
 
 # ------------------------------------------------------------------ check entry points
@@ -296,7 +363,7 @@ def corpus(ctx):
         bad = oracle_case(case, rs)
         S["corpus"] += 1
         if bad:
-            ctx.violation("chi2: " + "; ".join(bad), slim(case), key="chi2")
+            report(ctx, case, bad)
 
 
 def coq_case(case, out):
@@ -359,7 +426,7 @@ def correspondence(ctx):
         bad = oracle_case(case, rs_o)
         if bad:
             s_fail += 1
-            ctx.violation("chi2: " + "; ".join(bad), slim(case), key="chi2")
+            report(ctx, case, bad)
     for i in (len(CORPUS), len(CORPUS) + 11, len(todo) - n_err - 1):
         c = meta[i]
         ctx.sample({"stream": c["stream"], "rkind": c["rkind"], "n_fixed": len(c["m1"]), "n_mobile": len(c["m2e"]),
@@ -386,7 +453,7 @@ def oracle(ctx, scale):
     rs = ctx.np_rng("S%d" % scale)
     S = ctx.cov["S"]
     n = ctx.n(500, 6000) * scale
-    fails = 0
+    nfail = 0
     ties = 0
     for t in range(n):
         case = gen_dyadic(rs) if t % 4 == 3 else gen_case(rs)
@@ -396,11 +463,11 @@ def oracle(ctx, scale):
         if case["stream"] == "dyadic":
             ties += 1
         if bad:
-            fails += 1
-            ctx.violation("chi2: " + "; ".join(bad), slim(case), key="chi2")
+            nfail += 1
+            report(ctx, case, bad)
     S["reference_nonneg_rigid_relabel_x%d" % scale] = n
     S["dyadic_cases_x%d" % scale] = ties
-    S["failures"] = S.get("failures", 0) + fails
+    S["failures"] = S.get("failures", 0) + nfail
 
 
 def replay(ctx, obj):
